@@ -833,6 +833,16 @@ func c20ParseOK(a string) bool {
 func c20ReturnsParsedOnlyOnSuccess(c *Ctx, rule string, fn *ssa.Function) {
 	for k, r := range Returns(fn) {
 		rv := RetVals(r)
+		// both results relayed unchanged from the level parser itself: its own contract (R20.1/R20.2: a rejected text
+		// leaves the level at zero) is what the caller gets
+		if e0, ok0 := Strip(rv[0]).(*ssa.Extract); ok0 {
+			if e1, ok1 := Strip(rv[1]).(*ssa.Extract); ok1 && e0.Tuple == e1.Tuple && e0.Index == 0 && e1.Index == 1 {
+				if cl, isC := e0.Tuple.(*ssa.Call); isC && IsCallTo(cl, "go.uber.org/zap/zapcore.ParseLevel") {
+					c.OK(rule, fn.String(), "relays-parser#"+itoa(k+1), r.Pos(), "returns both results of zapcore.ParseLevel unchanged")
+					continue
+				}
+			}
+		}
 		if IsNilConst(Strip(rv[1])) {
 			ok := HasAtom(Guards(r), c20ParseOK)
 			c.Check(ok, rule, fn.String(), "success-after-parse#"+itoa(k+1), r.Pos(), "a nil error is returned only when the level parser (Level.UnmarshalText / ParseLevel) succeeded")
